@@ -43,6 +43,11 @@ CHECKS.update({
    text="A client that lists its prefix (served at R) and watches from R+1 is part of the model; TLC checks for all interleavings with writers that list result plus delivered events equals the snapshot at the last delivered revision. The same schedules are replayed on the real backend; the trace monitor recomputes the equation at every delivery against the history rebuilt from logged engine commits, and ReadIsSnapshot/NoSkip/DeliveredMatchesWrite cross-check read path and event path against the same history.",
    ref="6/C06"),
 })
+CHECKS.update({
+ "C07": dict(technique="TLA+ transcription of the compaction scan (Scanner.tla) model-checked by TLC for every crash point and every failing deletion (CompactionSafe); TLC-generated histories with interrupted/failing compactions replayed on 4 engines with faults injected at the storage interface; free-running writers+compactor+readers; TLC trace validation at every logged delete",
+   text="TLC checks in every reachable state of the bounded sequential model that a compaction at any R, interrupted after any number of deletions or with any single deletion failing (certain error or failed compare), leaves all reads at R' >= R unchanged and every key writable. TLC-generated histories containing such interrupted/failing compactions (followed by more writes) are executed on memkv, Badger, TiKV mock and the metrics wrapper; the monitor CompactionPreservesReads is evaluated at every logged Del/DelCurrent against the reconstructed store, and reads at every revision >= floor are compared with the reference. Free-running runs add real concurrency between writers, the compactor and readers.",
+   ref="6/C07"),
+})
 NA = {
  "C19": "data-race freedom is a property of memory accesses under the Go memory model; a TLA+ specification has no notion of an unsynchronised access and trace validation cannot observe one (see DESIGN.md section 6, C19)",
 }
